@@ -15,13 +15,18 @@ special points of the dodecahedron, face edges, quintant borders, projection sea
 each with a metamorphic partner (longitude + 360k; at a pole another longitude). Oracles: boundary-ring winding (outside \
 the ring's sagitta band) and planar signed distance (>= -1.5e-12), neither using the library's containment test. \
 non-trivial = the lookup was answered by a probe sample or the fallback (hook), or the point is within 1e-6 cell sizes \
-of an edge, or |lat| >= 70, or within 1e-6 rad of a seam/vertex/face centre; distinct by (point bits, resolution).";
+of an edge, or |lat| >= 70, or within 1e-6 rad of a seam/vertex/face centre; distinct by (point bits, resolution). A second section runs hook-guided walks (hill climbing on the index of the probe \
+sample that answered) so that the rare points needing the last probes, or the fallback, are reached.";
 
 #[derive(Debug, Clone)]
 pub enum Src {
     Spec(gen::PointSpec),
     /// cell, edge index, t along the edge, log10 of the offset in cell sizes, side (true = inside)
     Edge { cell: gen::CellSpec, edge: u8, t: f64, log_off: f64, inside: bool },
+    /// a point in the wedge at a corner of a cell: distance 10^log_rho cell sizes from the corner, at
+    /// fraction `frac` of the cell's interior angle at that corner, measured from the next edge (values
+    /// outside [0, 1] fall in the neighbouring cells): the region where the lookup's search is hardest
+    Corner { cell: gen::CellSpec, corner: u8, log_rho: f64, frac: f64 },
 }
 
 #[derive(Debug, Clone)]
@@ -36,6 +41,7 @@ pub fn src_json(s: &Src) -> Value {
     match s {
         Src::Spec(p) => json!({"kind": "spec", "p": gen::point_json(p)}),
         Src::Edge { cell, edge, t, log_off, inside } => json!({"kind": "edge", "cell": gen::cellspec_json(cell), "edge": edge, "t": t, "log_off": log_off, "inside": inside}),
+        Src::Corner { cell, corner, log_rho, frac } => json!({"kind": "corner", "cell": gen::cellspec_json(cell), "corner": corner, "log_rho": log_rho, "frac": frac}),
     }
 }
 pub fn src_from_json(v: &Value) -> Option<Src> {
@@ -48,6 +54,12 @@ pub fn src_from_json(v: &Value) -> Option<Src> {
             log_off: v["log_off"].as_f64()?,
             inside: v["inside"].as_bool()?,
         },
+        "corner" => Src::Corner {
+            cell: gen::cellspec_from_json(&v["cell"])?,
+            corner: v["corner"].as_u64()? as u8,
+            log_rho: v["log_rho"].as_f64()?,
+            frac: v["frac"].as_f64()?,
+        },
         _ => return None,
     })
 }
@@ -59,7 +71,14 @@ fn case_from_json(v: &Value) -> Option<Case> {
 }
 
 pub fn src_strategy(weights: [u32; 9], edge_weight: u32) -> BoxedStrategy<Src> {
+    let corner_weight = edge_weight.min(3);
     prop_oneof![
+        corner_weight => (gen::cell_spec(2, 29), 0u8..5, prop_oneof![1 => -3.0f64..-0.7, 2 => -2.3f64..-1.0], prop_oneof![
+                2 => -0.5f64..1.5,
+                3 => (0.0f64..1.0, any::<bool>()).prop_map(|(u, s)| { let d = 10f64.powf(-3.5 + 2.7 * u); if s { d } else { -d } }),
+                3 => (0.0f64..1.0, any::<bool>()).prop_map(|(u, s)| { let d = 10f64.powf(-3.5 + 2.7 * u); if s { 1.0 - d } else { 1.0 + d } }),
+            ])
+            .prop_map(|(cell, corner, log_rho, frac)| Src::Corner { cell, corner, log_rho, frac }),
         (10 - edge_weight) => gen::point_spec(weights).prop_map(Src::Spec),
         edge_weight => (gen::cell_spec(1, 29), 0u8..5, prop_oneof![3 => 0.0f64..1.0, 1 => (0.0f64..1.0).prop_map(|u| 10f64.powf(-9.0 + 8.0 * u)), 1 => (0.0f64..1.0).prop_map(|u| 1.0 - 10f64.powf(-9.0 + 8.0 * u))], -9.0f64..-1.0, any::<bool>())
             .prop_map(|(cell, edge, t, log_off, inside)| Src::Edge { cell, edge, t, log_off, inside }),
@@ -68,6 +87,23 @@ pub fn src_strategy(weights: [u32; 9], edge_weight: u32) -> BoxedStrategy<Src> {
 }
 
 impl Src {
+    /// The same source with cell-relative points re-based on a cell of resolution `res` (so that an
+    /// edge-hugging or corner point hugs a cell of the resolution that is looked up).
+    pub fn with_res(&self, res: i32) -> Src {
+        match self {
+            Src::Spec(p) => Src::Spec(*p),
+            Src::Edge { cell, edge, t, log_off, inside } => {
+                let mut c = *cell;
+                c.res = res.max(1);
+                Src::Edge { cell: c, edge: *edge, t: *t, log_off: *log_off, inside: *inside }
+            }
+            Src::Corner { cell, corner, log_rho, frac } => {
+                let mut c = *cell;
+                c.res = res.max(1);
+                Src::Corner { cell: c, corner: *corner, log_rho: *log_rho, frac: *frac }
+            }
+        }
+    }
     /// (lon, lat, class label)
     pub fn lonlat(&self) -> Result<(f64, f64, &'static str), String> {
         match self {
@@ -97,6 +133,37 @@ impl Src {
                 let (lon, lat) = lonlat_of_vec(v);
                 Ok((lon, lat.clamp(-90.0, 90.0), if *inside { "edge-hugging-inside" } else { "edge-hugging-outside" }))
             }
+            Src::Corner { cell, corner, log_rho, frac } => {
+                let c = cell.cell();
+                let pent = api::pentagon(&c)?;
+                let n = pent.len();
+                let k = *corner as usize % n;
+                let size = (poly_area2(&pent).abs() / 2.0).sqrt();
+                let a = pent[k];
+                let nb = pent[(k + 1) % n];
+                // frac in [0, 1] sweeps the cell's interior angle at the corner from the next edge to the
+                // previous edge; values outside [0, 1] lie in the neighbouring cells
+                let pv = pent[(k + n - 1) % n];
+                let base = (nb[1] - a[1]).atan2(nb[0] - a[0]);
+                let other = (pv[1] - a[1]).atan2(pv[0] - a[0]);
+                let mut interior = other - base;
+                let ccw = poly_area2(&pent) >= 0.0;
+                if ccw {
+                    while interior <= 0.0 {
+                        interior += std::f64::consts::TAU;
+                    }
+                } else {
+                    while interior >= 0.0 {
+                        interior -= std::f64::consts::TAU;
+                    }
+                }
+                let ang = base + interior * frac;
+                let rho = 10f64.powf(*log_rho) * size;
+                let q = [a[0] + rho * ang.cos(), a[1] + rho * ang.sin()];
+                let v = api::inverse(q, c.face)?;
+                let (lon, lat) = lonlat_of_vec(v);
+                Ok((lon, lat.clamp(-90.0, 90.0), "corner-wedge"))
+            }
         }
     }
 }
@@ -112,8 +179,10 @@ fn lookup(lon: f64, lat: f64, res: i32) -> Result<(u64, Cell, i32), String> {
 }
 
 pub fn check_case(case: &Case, st: &mut Stats) -> Result<(), String> {
-    let (lon, lat, class) = case.src.lonlat()?;
     let res = case.res;
+    // cell-relative points hug a cell of the looked-up resolution (3 of 4 cases) or of another one
+    let src = if case.wrap.rem_euclid(4) != 3 { case.src.with_res(res) } else { case.src.clone() };
+    let (lon, lat, class) = src.lonlat()?;
     let p = vec_of_lonlat(lon, lat);
     let (id, _c, branch) = lookup(lon, lat, res)?;
     let v = contain::contains(id, p)?;
@@ -162,8 +231,97 @@ pub fn check_case(case: &Case, st: &mut Stats) -> Result<(), String> {
     Ok(())
 }
 
+/// Guided walk (targeted PBT): from a start point, repeatedly try a generated small displacement
+/// (a fraction of a cell) and move there when the lookup needed a *later* probe sample (read
+/// through the `verif` hook) than at the current point — a hill climb towards the rare points for
+/// which the heuristic search is hardest. Every visited point is a full C01 case (containment
+/// asserted), so the walk can only add evidence, never weaken the oracle.
+#[derive(Debug, Clone)]
+pub struct Walk {
+    pub src: Src,
+    pub res: i32,
+    /// displacement proposals: (direction, log10 of the step in cell sizes)
+    pub steps: Vec<(f64, f64)>,
+}
+
+fn walk_json(w: &Walk) -> Value {
+    json!({"src": src_json(&w.src), "res": w.res, "steps": w.steps})
+}
+fn walk_from_json(v: &Value) -> Option<Walk> {
+    Some(Walk {
+        src: src_from_json(&v["src"])?,
+        res: v["res"].as_i64()? as i32,
+        steps: v["steps"].as_array()?.iter().map(|x| Some((x[0].as_f64()?, x[1].as_f64()?))).collect::<Option<Vec<_>>>()?,
+    })
+}
+
+/// One C01 evaluation at a sphere point; returns the probe index that answered (hook).
+fn eval_point(p: V3, res: i32, st: &mut Stats) -> Result<i32, String> {
+    let (lon, lat) = lonlat_of_vec(p);
+    let lat = lat.clamp(-90.0, 90.0);
+    let pv = vec_of_lonlat(lon, lat);
+    let (id, _c, branch) = lookup(lon, lat, res)?;
+    let v = contain::contains(id, pv)?;
+    if !v.contained {
+        return Err(format!(
+            "lonlat_to_cell(({}, {}), {}) = {:#x} does not contain the point: planar signed distance {:.3e} (cell size {:.3e}), boundary ring says {:?} at distance {:.3e} [reached by a guided walk, lookup branch {}]",
+            lon, lat, res, id, v.planar, contain::cell_size(res), v.ring, v.ring_dist, branch
+        ));
+    }
+    st.eval();
+    let score = if branch == -1 { 99 } else { branch };
+    if score >= 2 {
+        st.nontrivial(&(lon.to_bits(), lat.to_bits(), res));
+    }
+    if std::env::var("A5VERIF_DEBUG").is_ok() && (branch >= 13 || branch == -1) {
+        // where in its cell does a hard point lie? (edge margin and distance to the nearest corner, in cell sizes)
+        if let Some(cc) = codec::decode(id) {
+            if let (Ok(pent), Ok(q)) = (api::pentagon(&cc), api::forward(pv, cc.face)) {
+                let size = (poly_area2(&pent).abs() / 2.0).sqrt();
+                let dc = pent.iter().map(|c| ((c[0] - q[0]).powi(2) + (c[1] - q[1]).powi(2)).sqrt()).fold(f64::INFINITY, f64::min);
+                eprintln!("HARD res={} branch={} margin/size={:.4} corner-dist/size={:.4} lon={} lat={}", res, branch, v.planar / size, dc / size, lon, lat);
+            }
+        }
+    }
+    st.hit(&format!("walk-branch:{}", match branch { 0 => "direct-estimate".to_string(), -1 => "fallback".to_string(), -2 => "no-search(r<2)".to_string(), k => format!("probe-{:02}", k) }));
+    Ok(score)
+}
+
+pub fn check_walk(w: &Walk, st: &mut Stats) -> Result<(), String> {
+    let res = w.res;
+    let (lon, lat, _class) = w.src.with_res(res).lonlat()?;
+    let size = contain::cell_size(res);
+    let mut p = vec_of_lonlat(lon, lat);
+    let mut best = eval_point(p, res, st)?;
+    for (dir, log_step) in &w.steps {
+        let d = 10f64.powf(*log_step) * size;
+        let q = offset_point(p, d * dir.cos(), d * dir.sin());
+        let score = eval_point(q, res, st)?;
+        if score >= best {
+            best = score;
+            p = q;
+        }
+    }
+    st.max("max:walk-best-probe-index(99=fallback)", best as u64);
+    st.hit(&format!("walk-end-probe:{:02}", best.min(99)));
+    st.sample(best >= 10, || json!({"walk_start": [lon, lat], "res": res, "steps": w.steps.len(), "best_probe_index": best}));
+    Ok(())
+}
+
+pub fn walk_strategy() -> BoxedStrategy<Walk> {
+    (src_strategy(gen::DEFAULT_POINT_WEIGHTS, 6), res_strategy(2), proptest::collection::vec((0.0f64..std::f64::consts::TAU, -2.5f64..0.3), 10..40))
+        .prop_map(|(src, res, steps)| Walk { src, res, steps })
+        .boxed()
+}
+
+/// Resolutions: uniform, with extra weight on both ends of the range (where range-dependent
+/// behaviour such as scale floors, digit-buffer sizes or bit budgets would bite).
+pub fn res_strategy(min: i32) -> BoxedStrategy<i32> {
+    prop_oneof![3 => min..=29, 1 => prop::sample::select(vec![min, min + 1, 27, 28, 29, 29])].boxed()
+}
+
 pub fn case_strategy() -> BoxedStrategy<Case> {
-    (src_strategy(gen::DEFAULT_POINT_WEIGHTS, 3), 0i32..=29, -3i8..=3, -180.0f64..180.0)
+    (src_strategy(gen::DEFAULT_POINT_WEIGHTS, 3), res_strategy(0), -3i8..=3, -180.0f64..180.0)
         .prop_map(|(src, res, wrap, lon2)| Case { src, res, wrap, lon2 })
         .boxed()
 }
@@ -172,7 +330,11 @@ pub fn run(tier: Tier, seed: u64) -> Report {
     let mut rep = Report::new("C01", tier, seed, RULE);
     rep.assume("planar oracle reuses the library's forward projection (pinned by C15) and pentagon placement (C17); ring oracle reuses cell_to_boundary (C11)");
     let r = run_pbt("lookups", seed, tier.pick(40_000, 1_500_000), case_strategy, check_case, case_json);
-    rep.absorb("lookups", r);
+    if !rep.absorb("lookups", r) {
+        return rep;
+    }
+    let r = run_pbt("guided-walks", seed, tier.pick(1_500, 60_000), walk_strategy, check_walk, walk_json);
+    rep.absorb("guided-walks", r);
     rep
 }
 
@@ -180,6 +342,7 @@ pub fn replay(section: &str, case: &Value) -> Option<Result<(), String>> {
     let mut st = Stats::default();
     Some(guarded(|| match section {
         "lookups" => check_case(&case_from_json(case).ok_or("bad case")?, &mut st),
+        "guided-walks" => check_walk(&walk_from_json(case).ok_or("bad case")?, &mut st),
         _ => Err(format!("unknown section {}", section)),
     }))
 }
